@@ -5,6 +5,7 @@ import (
 	"encoding/json"
 	"errors"
 	"fmt"
+	"regexp"
 	"strings"
 	"sync"
 
@@ -99,6 +100,17 @@ func c08Service(r *c08Rec) (*core.Service, map[string]string) {
 		r.values("MixedCaseW", b, f, u)
 		return b, f, u
 	}, "MixedCaseW")
+	pub(func(id int) string {
+		r.invoked("user_profile_get", id)
+		v := fmt.Sprintf("profile-%d", id)
+		r.values("user_profile_get", v)
+		return v
+	}, "user_profile_get")
+	pub(func(a, b *gen.Plain, s1, s2 string) (*gen.Plain, string) {
+		r.invoked("shared", a, b, s1, s2)
+		r.values("shared", b, s2+s1)
+		return b, s2 + s1
+	}, "shared")
 	s.AddInstanceMethods(&c08NS{r}, "ns")
 	table["ns_mul"] = "ns_mul"
 	return s, table
@@ -118,12 +130,35 @@ type c08Proxy struct {
 	W       func(b []byte, f float32, u uint8) ([]byte, float32, uint8, error) `name:"mixedcasew"`
 }
 
+// c08Nested: proxy fields nested two levels deep are called as user_profile_get
+type c08Nested struct {
+	User struct {
+		Profile struct {
+			Get func(id int) (string, error)
+		}
+	}
+}
+
+type c08NSProxy struct {
+	Mul func(a, b int) (int, error)
+}
+
+var c08NotPlain = regexp.MustCompile(`"k":"(bigint|bigfloat|bigrat)"|"k":"int","v":"-?[0-9]{19,}"`)
+
+// c08Plain: no big numbers and no integers beyond int64 in the value. Their fidelity through an
+// interface{} is the serializer's business (known findings C01-K1, C01-K2), not the call's.
+func c08Plain(v interface{}) bool {
+	b, _ := json.Marshal(fmtx.Abs(v))
+	return !c08NotPlain.Match(b)
+}
+
 type c08Case struct {
 	Kind    string `json:"kind"`
 	Pool    bool   `json:"pool"`
 	Simple  bool   `json:"simple"`
 	Missing bool   `json:"missing"`
 	Call    int    `json:"call,omitempty"` // replay: only this call
+	Seed    int64  `json:"seed,omitempty"`
 }
 
 func c08Run(t *tr.Writer, id int, c c08Case) {
@@ -221,6 +256,24 @@ func c08Run(t *tr.Writer, id int, c c08Case) {
 	raw("NS_Mul", 2, 3)
 	raw("no_such_method", 1, "x")
 	raw("echo", strings.Repeat("long-", 2000))
+	// repeated arguments: equal strings and shared pointers travel as references in reference mode
+	raw("concat", "alpha", "beta", "alpha")
+	raw("concat", "concat", "concat")
+	raw("echo", "echo")
+	raw("echo", []interface{}{"same", "other", "same"})
+	raw("l", []string{"l", "l"})
+	raw("shared", p, p, "pb", "pb")
+	raw("shared", p, &gen.Plain{A: 5, B: "pb", C: 2.5}, "x", "pb")
+	raw("user_profile_get", 7)
+	// seeded compositions through echo
+	for i, n := 0, 0; n < 24 && i < 200; i++ {
+		g := gen.RandomOpt(c.Seed*7919+int64(i), 1+i%3, true)
+		if !c08Plain(g.Vals[0].V.Interface()) {
+			continue
+		}
+		n++
+		raw("echo", g.Vals[0].V.Interface())
+	}
 	// the proxy
 	var px c08Proxy
 	client.UseService(&px)
@@ -238,6 +291,13 @@ func c08Run(t *tr.Writer, id int, c c08Case) {
 	call("nothing", w(), func() ([]interface{}, error) { e := px.Nothing(); return w(), e })
 	call("echo", w("pe"), func() ([]interface{}, error) { v, e := px.Echo("pe"); return w(v), e })
 	call("echo", w(nil), func() ([]interface{}, error) { v, e := px.Echo(nil); return w(v), e })
+	call("concat", w("r", "s", "r", "r"), func() ([]interface{}, error) { v, e := px.Concat("r", "s", "r", "r"); return w(v), e })
+	var nested c08Nested
+	client.UseService(&nested)
+	call("User_Profile_Get", w(3), func() ([]interface{}, error) { v, e := nested.User.Profile.Get(3); return w(v), e })
+	var nsp c08NSProxy
+	client.UseService(&nsp, "ns")
+	call("ns_Mul", w(4, 5), func() ([]interface{}, error) { v, e := nsp.Mul(4, 5); return w(v), e })
 	call("mixedcasew", w([]byte("b"), float32(2.5), uint8(1)), func() ([]interface{}, error) {
 		a, b, cc, e := px.W([]byte("b"), float32(2.5), uint8(1))
 		return w(a, b, cc), e
@@ -270,7 +330,7 @@ func runC08(a Args) tr.Summary {
 						if a.Tier != "thorough" && simple != missing {
 							continue
 						}
-						cases = append(cases, c08Case{Kind: k, Pool: pool, Simple: simple, Missing: missing})
+						cases = append(cases, c08Case{Kind: k, Pool: pool, Simple: simple, Missing: missing, Seed: a.Seed*100 + int64(len(cases))})
 					}
 				}
 			}
@@ -285,6 +345,6 @@ func runC08(a Args) tr.Summary {
 	sum.Cases = t.Cases
 	sum.Events = t.Lines
 	sum.Nontrivial = t.Cases
-	sum.Extra = tr.Rec{"calls_per_case": 41}
+	sum.Extra = tr.Rec{"calls_per_case": 77}
 	return sum
 }
